@@ -16,7 +16,7 @@ require (
 )
 
 require (
-	golang.org/x/text v0.21.0 // indirect
+	golang.org/x/text v0.21.0
 	gonum.org/v1/gonum v0.15.1
 )
 
